@@ -8,6 +8,7 @@ import (
 	"path/filepath"
 	"sort"
 	"strings"
+	"sync"
 
 	"golang.org/x/tools/go/packages"
 	"golang.org/x/tools/go/ssa"
@@ -15,6 +16,7 @@ import (
 )
 
 type Program struct {
+	mu        sync.Mutex
 	repo      string
 	fset      *token.FileSet
 	pkgs      []*packages.Package
@@ -30,6 +32,7 @@ type Program struct {
 	loops   map[*ssa.Function]*loopInfo
 	modsets map[*ssa.Function]*modSet
 
+	immutableGlobal map[string]bool // heap names of globals never assigned outside init
 	defAxioms    map[string]*T // definitional axioms of opaque spec functions, by UF name
 	unknownCalls map[string]int
 	specUses     map[string]bool
@@ -72,7 +75,7 @@ func LoadProgram(repo string, patterns []string) (*Program, error) {
 	p := &Program{repo: repo, fset: pkgs[0].Fset, pkgs: pkgs, ssa: prog, ssaPkgs: map[string]*ssa.Package{},
 		contracts: NewContractSet(), strSyms: map[string]*T{}, strVals: map[string]string{}, subRefs: map[string]int{},
 		tagOf: map[string]int{}, loops: map[*ssa.Function]*loopInfo{}, modsets: map[*ssa.Function]*modSet{},
-		defAxioms: map[string]*T{}, unknownCalls: map[string]int{}, specUses: map[string]bool{}, initFacts: map[string][]*T{}, initNotes: map[string][]string{}, initDone: map[string]bool{}}
+		immutableGlobal: map[string]bool{}, defAxioms: map[string]*T{}, unknownCalls: map[string]int{}, specUses: map[string]bool{}, initFacts: map[string][]*T{}, initNotes: map[string][]string{}, initDone: map[string]bool{}}
 	for i, sp := range spkgs {
 		if sp == nil {
 			return nil, fmt.Errorf("no SSA package for %s", pkgs[i].PkgPath)
@@ -108,6 +111,8 @@ func (p *Program) LoadSpecs(dir string) error {
 }
 
 func (p *Program) strLit(s string) *T {
+	p.mu.Lock()
+	defer p.mu.Unlock()
 	if t, ok := p.strSyms[s]; ok {
 		return t
 	}
@@ -122,6 +127,8 @@ func (p *Program) litVal(t *T) (string, bool) {
 	if len(t.Args) != 0 {
 		return "", false
 	}
+	p.mu.Lock()
+	defer p.mu.Unlock()
 	v, ok := p.strVals[t.Op]
 	return v, ok
 }
